@@ -22,6 +22,8 @@ TRANSFORMS = [
     ("identity", lambda v: v),
     ("scale 2^-20", lambda v: v * 2.0 ** -20),
     ("scale 2^20", lambda v: v * 2.0 ** 20),
+    ("scale 2^-40", lambda v: v * 2.0 ** -40),
+    ("scale 2^-30", lambda v: v * 2.0 ** -30),
     ("scale 10^6", lambda v: v * 1e6),
     ("scale 10^12", lambda v: v * 1e12),
     ("translate", lambda v: v + np.array([1000.0, -7.5])),
@@ -50,7 +52,7 @@ def _classify(job):
     variants.append(("reversed", verts[::-1].copy()))
     variants.append(("closed", np.vstack([verts, verts[:1]])))
     tfs = TRANSFORMS if tier == "thorough" else TRANSFORMS[:1] + [
-        TRANSFORMS[1 + (hash(str(case["poly"])) % 7)]]
+        TRANSFORMS[1 + (hash(str(case["poly"])) % 9)]]
     for vname, vv in variants:
         for tname, tf in tfs:
             tv, tp = tf(vv), tf(pts)
@@ -156,7 +158,7 @@ def main(tier, seed, replay=None):
                "invariance, and emits the classification table; the compiled "
                "PolygonFilter.filter / point_in_poly is evaluated on every "
                "polygon and point, as given, shifted, reversed, closed, "
-               "inverted and under exact similarity transforms (2^+-20, "
+               "inverted and under exact similarity transforms (2^-40..2^20, "
                "10^6, 10^12, translation, axis swap). .poly round trips of "
                "all filter sets from PolyFileSpec. non-trivial = polygon "
                "with at least one inside and one outside free point.")
